@@ -960,9 +960,11 @@ fn transcript(calls: &[Call], obs: &Obs) -> (String, Vec<Option<(i64, Option<Vec
     (t, per_call_msg, extra)
 }
 
-/// The one-shot law on the observed transcript.  `strict`: every invoked operation uses the modifiers up;
-/// otherwise: an operation refused locally leaves them.  Returns the first discrepancy.
-fn law(calls: &[Call], obs: &Obs, msgs: &[Option<(i64, Option<Vec<RC>>, Req)>], first_id: i64, strict: bool) -> Option<String> {
+/// The one-shot law on the observed transcript: every invoked operation — sent, refused with AddNoValues,
+/// or a Search with an unparsable filter — uses the modifiers up.  The one exception is outside the law
+/// (caller contract violation): `extended` with a nameless Exop panics before anything is taken, and a
+/// caller catching the unwind finds the modifiers still there.  Returns the first discrepancy.
+fn law(calls: &[Call], obs: &Obs, msgs: &[Option<(i64, Option<Vec<RC>>, Req)>], first_id: i64) -> Option<String> {
     let mut pending: BTreeMap<usize, Snap> = BTreeMap::new();
     let empty = Snap { ctrls: None, tmo: None, opts: None };
     let mut id = first_id;
@@ -985,7 +987,7 @@ fn law(calls: &[Call], obs: &Obs, msgs: &[Option<(i64, Option<Vec<RC>>, Req)>], 
                     if msgs[i].is_some() || obs.per_call[i].0 != want {
                         return Some(format!("call {}: a call that must be refused was not ({})", i, obs.per_call[i].0));
                     }
-                    if strict {
+                    if want != "panic" {
                         pending.insert(h, empty.clone());
                     }
                 } else {
@@ -1068,16 +1070,15 @@ fn script_case(out: &mut Out, rt: &tokio::runtime::Runtime, calls: &[Call], labe
     let verdict = if extra > 0 {
         Some(format!("{} message(s) on the wire that no call accounts for", extra))
     } else {
-        law(calls, &obs, &msgs, 1, true)
+        law(calls, &obs, &msgs, 1)
     };
+    let has_panic = calls.iter().any(|c| matches!(c, Call::Op(_, r, _) if must_reject(r) == Some("panic")));
+    let name = if has_panic { "requests.one-shot-with-panics" } else { "requests.one-shot" };
     match verdict {
-        None => out.r(&format!("requests.one-shot {}", desc), true, ""),
+        None => out.r(&format!("{} {}", name, desc), true, ""),
         Some(d) => {
-            // is the discrepancy exactly "modifiers survive a locally refused operation"?
-            let weaker = if extra > 0 { Some(String::new()) } else { law(calls, &obs, &msgs, 1, false) };
-            let tag = if weaker.is_none() { "modifiers-survive-refused-op" } else { "other" };
-            out.stat(&format!("{}.law-fails.{}", label, tag));
-            out.r(&format!("requests.one-shot {}", desc), false, &format!("{}: {}", tag, d));
+            out.stat(&format!("{}.law-fails", label));
+            out.r(&format!("{} {}", name, desc), false, &d);
         }
     }
 }
@@ -1085,7 +1086,8 @@ fn script_case(out: &mut Out, rt: &tokio::runtime::Runtime, calls: &[Call], labe
 pub fn run(thorough: bool, mut rng: Rng, mut out: Out) {
     let rt = tokio::runtime::Builder::new_current_thread().enable_all().build().expect("tokio runtime");
     let rc = |o: &str, crit: bool, val: Option<&[u8]>| RC { oid: o.as_bytes().to_vec(), crit, val: val.map(|v| v.to_vec()) };
-    // corpus: the F10 witness (search options before a non-search operation), and modifiers before refused calls
+    // corpus: the F10 witness (search options before a non-search operation) and the F16 witnesses (modifiers
+    // before an add / modify refused with AddNoValues): the law must hold on them now; modifiers before a panicking exop
     let f = |i: usize| Req::Search { base: b"dc=x".to_vec(), scope: 2, opts: DEFAULT_OPTS, attrs: vec![b"cn".to_vec()], filter: FILTERS[i].1.to_string(), fsrc: FILTERS[i].0.to_string() };
     let o1 = Opts { deref: 3, types_only: true, time: 7, size: 9 };
     let corpus: Vec<Vec<Call>> = vec![
